@@ -5,7 +5,7 @@ def _c07_case(c):
     # model case line: <nuniv> <content-table> <ops>; re-runnable by the harness as a raw graph.Memory history
     # model case line: <nuniv> <content-table> <ops> <origin>; origin = <part>-seed-<n> re-generates the case
     p = c.split(" ")
-    if len(p) in (4, 6) and "-seed-" in p[-1]:
+    if len(p) in (4, 6, 8) and "-seed-" in p[-1]:
         part, _, seed = p[-1].partition("-seed-")
         part = part.split("-")[-1]
         return {"kind": "seed", "part": part, "seed": seed}
@@ -207,8 +207,8 @@ def _c07_vm_sample(d, tier, coq, build):
 
 CONFIG = {
     "properties_file": "Properties/C07.v",
-    "proof_files": ["Proofs/GraphMem.v", "Proofs/GraphStore.v", "Proofs/IndexLTS.v"],
-    "model_files": ["Generated/GC07.v", "Model/GraphMem.v", "Model/GraphStore.v", "Model/IndexLTS.v"],
+    "proof_files": ["Proofs/GraphMem.v", "Proofs/GraphStore.v", "Proofs/IndexLTS.v", "Proofs/Links.v"],
+    "model_files": ["Generated/GC07.v", "Model/GraphMem.v", "Model/GraphStore.v", "Model/IndexLTS.v", "Model/Links.v"],
     "extract": "XC07.v",
     "ml_main": "c07_main.ml",
     "harness": "c07",
